@@ -205,6 +205,7 @@ type World struct {
 	fixes    string
 	aborted  bool
 	concurrent bool
+	dialHold chan struct{} // overlap schedules: Dial waits until this channel is closed
 	qcap     int
 }
 
@@ -253,6 +254,12 @@ func classRank(txt string) int {
 
 // Dial implements client.Dialer
 func (w *World) Dial(string) (transport.Conn, error) {
+	w.mu.Lock()
+	hold := w.dialHold
+	w.mu.Unlock()
+	if hold != nil {
+		<-hold
+	}
 	w.mu.Lock()
 	plan := w.plan
 	id := len(w.conns) + 1
